@@ -109,34 +109,150 @@ Fixpoint load' (fuel : nat) (sc : schema) (o : obj) (s : list byte) {struct fuel
             (load_field fuel') (get_class sc c) (Datatypes.S (length s)) (Obj c raw true unk cur) s
   end.
 
+
+(* Message.load, size = None, one unfolding: the text of the inner loop of Model/Decode.load with
+   [size := None] (checked by reflexivity, i.e. by conversion with the model's definition).  The loop is
+   applied to variables so that no tactic unfolds it behind our back. *)
+Lemma load_unfold fuel sc c raw sow unk cur s :
+  forall n o0 s0 read0, n = Datatypes.S (length s) -> o0 = Obj c raw true unk cur -> s0 = s -> read0 = 0 ->
+  load (Datatypes.S fuel) sc (Obj c raw sow unk cur) s None =
+  (let fuel' := fuel in
+   let size : option Z := None in
+      let cd := get_class sc c in
+      (* cls().parse(payload) for a nested message class / Entry class / bundled class *)
+      let parse_new (c' : nat) (bs : list byte) : result obj :=
+        do (o', _) <- load fuel' sc (new sc c') bs None; Ok o' in
+      (* the WIRE_LEN_DELIM branch of _postprocess_single for a non-packed field *)
+      let post_len (f : fdesc) (t : ptype) (ety : pyty) (wraps : option ptype) (bs : list byte) : result pv :=
+        if ptype_eqb t TString then
+          if utf8_valid bs then Ok (PStr bs) else Err EUnicode
+        else if ptype_eqb t TMessage then
+          match ety, wraps with
+          | PyDatetime, _ =>
+              do m <- parse_new timestamp_cls bs;
+              match snd (getattr sc m 0), snd (getattr sc m 1) with
+              | Ok (PInt sec), Ok (PInt nan) => do us <- us_of_ts sec nan; Ok (PDatetime us)
+              | _, _ => Err EType
+              end
+          | PyTimedelta, _ =>
+              do m <- parse_new duration_cls bs;
+              match snd (getattr sc m 0), snd (getattr sc m 1) with
+              | Ok (PInt sec), Ok (PInt nan) => do us <- us_of_dur sec nan; Ok (PTimedelta us)
+              | _, _ => Err EType
+              end
+          | _, Some w =>
+              match wrapper_cls w with
+              | None => Err EKey
+              | Some wc => do m <- parse_new wc bs; snd (getattr sc m 0)
+              end
+          | PyMsg c', None => do m <- parse_new c' bs; Ok (mark_sow (PMsg m))
+          | _, None => Err EType
+          end
+        else Ok (PBytes bs) in
+      (fix loop (n : nat) (o : obj) (s : list byte) (read : Z) {struct n} : result (obj * list byte) :=
+         match n with
+         | O => Err EFuel
+         | S n' =>
+             match s with
+             | [] =>                                            (* load_fields: EOF before a tag *)
+                 match size with
+                 | Some sz => if read <? sz then Err EValue else Ok (o, s)
+                 | None => Ok (o, s)
+                 end
+             | _ =>
+                 do (num_wire, r, s1) <- load_varint s;
+                 do (p, s2) <- load_field fuel' s1 num_wire r;
+                 do read <- match size with
+                            | Some sz => let read' := read + Zlength (praw p) in
+                                         if sz <? read' then Err EValue else Ok read'
+                            | None => Ok read
+                            end;
+                 let finished := match size with Some sz => read =? sz | None => false end in
+                 let continue (o : obj) := if finished then Ok (o, s2) else loop n' o s2 read in
+                 let 'Obj c raw sow unk cur := o in
+                 match field_by_number cd (pnum p) with
+                 | None => continue (Obj c raw sow (unk ++ praw p) cur)
+                 | Some (i, f) =>
+                     if negb (wire_type_fits f (pwt p)) then continue (Obj c raw sow (unk ++ praw p) cur)
+                     else
+                       do value <-
+                         (if (pwt p =? WIRE_LEN_DELIM) && tmem (fty f) PACKED_TYPES then
+                            do l <- unpack_packed (Datatypes.S (length (pbytes p))) (fty f) (pbytes p); Ok (PList l)
+                          else if pwt p =? WIRE_VARINT then Ok (postprocess_varint (fty f) (pint p))
+                          else if (pwt p =? WIRE_FIXED_32) || (pwt p =? WIRE_FIXED_64) then unpack_value (fty f) (pbytes p)
+                          else if ptype_eqb (fty f) TMap then
+                            do e <- parse_new (fentry f) (pbytes p); Ok (PMsg e)
+                          else post_len f (fty f) (hint_elem (fhint f)) (fwraps f) (pbytes p));
+                       (* try: current = getattr(self, name) except AttributeError: current = default; setattr(self, name, current) *)
+                       let '(o, current) :=
+                         match getattr sc o i with
+                         | (o', Ok cur_v) => (o', cur_v)
+                         | (_, Err _) => let d := default_of sc f in (setattr sc o i d, d)
+                         end in
+                       let 'Obj c raw sow unk cur := o in
+                       if ptype_eqb (fty f) TMap then
+                         match value, current with
+                         | PMsg e, PDict d =>
+                             match getattr sc e 0, getattr sc e 1 with
+                             | (_, Ok k), (_, Ok v) => continue (Obj c (set_nth i (PDict (dict_set d sc k v)) raw) sow unk cur)
+                             | _, _ => Err EAttribute
+                             end
+                         | _, _ => Err EType
+                         end
+                       else
+                         match current with
+                         | PList l =>
+                             let l' := match value with PList vs => l ++ vs | _ => l ++ [value] end in
+                             continue (Obj c (set_nth i (PList l') raw) sow unk cur)
+                         | _ => continue (setattr sc o i value)
+                         end
+                 end
+             end
+         end)) n o0 s0 read0.
+Proof. intros n o0 s0 read0 -> -> -> ->. reflexivity. Qed.
+
+Lemma load'_unfold fuel sc c raw sow unk cur s :
+  load' (Datatypes.S fuel) sc (Obj c raw sow unk cur) s =
+  loop' sc (fun c' bs => do (o', _) <- load' fuel sc (new sc c') bs; Ok o')
+        (load_field fuel) (get_class sc c) (Datatypes.S (length s)) (Obj c raw true unk cur) s.
+Proof. reflexivity. Qed.
+
 Lemma load_eq fuel : forall sc o s, load fuel sc o s None = load' fuel sc o s.
 Proof.
   induction fuel as [|fuel IH]; intros sc o s; [reflexivity|].
-  destruct o as [c raw sow unk cur]. cbn [load load' bind].
-  generalize (Obj c raw true unk cur) as o. generalize 0 as read. generalize (Datatypes.S (length s)) as n.
-  revert s. intros s n. revert s. induction n as [|n IHn]; intros s read o; [reflexivity|].
-  cbn [loop']. destruct s as [|b0 s0]; [reflexivity|].
-  destruct (load_varint (b0 :: s0)) as [[[num_wire r] s1]|]; cbn [bind]; [|reflexivity].
-  destruct (load_field fuel s1 num_wire r) as [[p s2]|]; cbn [bind]; [|reflexivity].
-  unfold apply_record. destruct o as [c' raw' sow' unk' cur'].
-  destruct (field_by_number (get_class sc c) (pnum p)) as [[i f]|]; cbn [bind keep_unknown]; [|apply IHn].
-  destruct (negb (wire_type_fits f (pwt p))); cbn [bind keep_unknown]; [apply IHn|].
-  unfold field_value, post_len.
-  repeat rewrite IH.
-  match goal with |- (do value <- ?X; _) = (do value' <- ?Y; _) => replace X with Y; [destruct Y as [value|]; cbn [bind]; [|reflexivity]|] end.
-  2:{ repeat match goal with |- context [load ?a ?b ?c ?d None] => rewrite (IH b c d) end. reflexivity. }
-  unfold store.
-  destruct (getattr sc (Obj c' raw' sow' unk' cur') i) as [o1 [cur_v|e]].
-  - destruct o1 as [c1 raw1 sow1 unk1 cur1].
-    destruct (ptype_eqb (fty f) TMap).
-    + destruct value; try reflexivity. destruct cur_v; try reflexivity.
-      destruct (getattr sc o 0) as [? [?|?]]; try reflexivity.
-      destruct (getattr sc o 1) as [? [?|?]]; try reflexivity. cbn [bind]. apply IHn.
-    + destruct cur_v; cbn [bind]; apply IHn.
-  - destruct (setattr sc (Obj c' raw' sow' unk' cur') i (default_of sc f)) as [c1 raw1 sow1 unk1 cur1].
-    destruct (ptype_eqb (fty f) TMap).
-    + destruct value; try reflexivity. destruct (default_of sc f); try reflexivity.
-      destruct (getattr sc o 0) as [? [?|?]]; try reflexivity.
-      destruct (getattr sc o 1) as [? [?|?]]; try reflexivity. cbn [bind]. apply IHn.
-    + destruct (default_of sc f); cbn [bind]; apply IHn.
+  destruct o as [c raw sow unk cur].
+  pose proof (load_unfold fuel sc c raw sow unk cur s) as E.
+  match type of E with
+  | forall n o0 s0 read0, _ -> _ -> _ -> _ -> _ = ?F n o0 s0 read0 =>
+      assert (H : forall n o0 s0 read0,
+                 F n o0 s0 read0 =
+                 loop' sc (fun c' bs => do (o', _) <- load' fuel sc (new sc c') bs; Ok o')
+                       (load_field fuel) (get_class sc c) n o0 s0)
+  end.
+  { clear E. induction n as [|n IHn]; intros o s0 read; [reflexivity|].
+    cbn [loop']. cbv zeta. destruct s0 as [|b0 s0]; [reflexivity|].
+    destruct (load_varint (b0 :: s0)) as [[[num_wire r] s1]|]; cbn [bind]; [|reflexivity].
+    destruct (load_field fuel s1 num_wire r) as [[p s2]|]; cbn [bind]; [|reflexivity].
+    unfold apply_record. destruct o as [c' raw' sow' unk' cur'].
+    destruct (field_by_number (get_class sc c) (pnum p)) as [[i f]|]; cbn [bind keep_unknown]; [|apply IHn].
+    destruct (negb (wire_type_fits f (pwt p))); cbn [bind keep_unknown]; [apply IHn|].
+    unfold field_value, post_len.
+    match goal with |- (do value <- ?X; _) = (do o' <- (do value' <- ?Y; _); _) => replace X with Y; [destruct Y as [value|]; cbn [bind]; [|reflexivity]|] end.
+    2:{ destruct (hint_elem (fhint f)); destruct (fwraps f) as [w|]; try destruct (wrapper_cls w); rewrite ?IH; reflexivity. }
+    unfold store.
+    destruct (getattr sc (Obj c' raw' sow' unk' cur') i) as [o1 [cur_v|e]].
+    - destruct o1 as [c1 raw1 sow1 unk1 cur1].
+      destruct (ptype_eqb (fty f) TMap).
+      + destruct value; try reflexivity. destruct cur_v; try reflexivity.
+        destruct (getattr sc o 0) as [? [?|?]]; try reflexivity.
+        destruct (getattr sc o 1) as [? [?|?]]; try reflexivity. cbn [bind]. apply IHn.
+      + destruct cur_v; cbn [bind]; apply IHn.
+    - destruct (setattr sc (Obj c' raw' sow' unk' cur') i (default_of sc f)) as [c1 raw1 sow1 unk1 cur1].
+      destruct (ptype_eqb (fty f) TMap).
+      + destruct value; try reflexivity. destruct (default_of sc f); try reflexivity.
+        destruct (getattr sc o 0) as [? [?|?]]; try reflexivity.
+        destruct (getattr sc o 1) as [? [?|?]]; try reflexivity. cbn [bind]. apply IHn.
+      + destruct (default_of sc f); cbn [bind]; apply IHn. }
+  etransitivity; [apply (E _ _ _ _ eq_refl eq_refl eq_refl eq_refl)|].
+  etransitivity; [apply H | reflexivity].
 Qed.
